@@ -513,6 +513,10 @@ class SchemaGen:
         if t.kind == "float":
             v = r.choice([0.0, 1.5])
             return v, repr(v)
+        if t.kind == "opt" and t.args and r.random() < 0.5:
+            inner = self.simple_default(t.args[0])          # Optional[T] = <non-None default>: explicit null must still win
+            if inner is not None and not (isinstance(inner[0], str) and inner[0].startswith("factory:")):
+                return inner
         if t.kind in ("opt", "none", "any"):
             return None, "None"
         if t.kind == "list":
@@ -750,6 +754,17 @@ def same(a, b) -> bool:
                 return False
         return True
     return a == b
+
+
+def same_ordered(a, b) -> bool:
+    """same() and, in addition, equal key order of every mapping (C02: key and field order are part of the form)"""
+    if not same(a, b):
+        return False
+    if isinstance(a, dict):
+        return [k for k in a] == [k for k in b] and all(same_ordered(a[k], b[k]) for k in a)
+    if isinstance(a, (list, tuple)):
+        return all(same_ordered(x, y) for x, y in zip(a, b))
+    return True
 
 
 def is_basic(x, allow_any=False) -> bool:
